@@ -199,16 +199,15 @@ def sig_facts(alias='default'):
 
 
 def evolver_facts(evolver):
+    """Preparation happens here (as it would inside evolve()); an exception
+    is the outcome of the run and propagates."""
     f = {}
-    try:
-        f['evolution_required'] = bool(evolver.get_evolution_required())
-        f['can_simulate'] = bool(evolver.can_simulate())
-        d = evolver.diff_evolutions()
-        f['diff_evolutions_empty'] = bool(d.is_empty(ignore_apps=True))
-        if not f['diff_evolutions_empty']:
-            f['diff_evolutions'] = str(d)[:300]
-    except Exception as e:
-        f['facts_error'] = '%s: %s' % (type(e).__name__, str(e)[:200])
+    f['evolution_required'] = bool(evolver.get_evolution_required())
+    f['can_simulate'] = bool(evolver.can_simulate())
+    d = evolver.diff_evolutions()
+    f['diff_evolutions_empty'] = bool(d.is_empty(ignore_apps=True))
+    if not f['diff_evolutions_empty']:
+        f['diff_evolutions'] = str(d)[:300]
     return f
 
 
